@@ -36,7 +36,7 @@ def main():
         with open(a.path) as f:
             v = json.load(f)
         mod = importlib.import_module(v["module"])
-        if v.get("query") == "internal-error":
+        if v.get("query") in ("internal-error", "internal-error-configs"):
             from . import common
             ok = common.replay_internal_error(mod, v)
         else:
@@ -46,4 +46,12 @@ def main():
 
 
 if __name__ == "__main__":
-    main()
+    try:
+        main()
+    except SystemExit:
+        raise
+    except BaseException:          # a crash of the harness itself is never a verdict: exit 2, not 1
+        import traceback
+        traceback.print_exc()
+        print("harness error: the check crashed before reaching a verdict")
+        sys.exit(2)
